@@ -67,7 +67,7 @@ def process_signature(app, what, name, obj, options,
         # TYPE_CHECKING only) are shown as written
         pass
     ret_annot = sig.return_annotation
-    if ret_annot != sig.empty:
+    if ret_annot is not sig.empty:
         sret_annot = '{0!r}'.format(ret_annot)
         sig = sig.replace(return_annotation=sig.empty)
     else:
